@@ -136,14 +136,26 @@ func (h *H) DoRisky(op string, args ...string) (string, string) {
 		h.w = &worker{}
 	}
 	i, o, k := h.w.run(op, args)
+	if strings.HasPrefix(i, "fatal:") {
+		// a fatal error is believed only if the case also dies alone in a fresh worker
+		h.Count("fatal_first_try", 1)
+		h.w.kill()
+		i, o, k = h.w.run(op, args)
+	}
 	h.Count("cases", 1)
 	h.Count("op:"+op, 1)
 	if strings.HasPrefix(i, "fatal:") {
 		h.Count("fatal", 1)
+		if f, ok := fatalClass[op]; ok {
+			k = f(args) // a dead worker cannot classify its own death
+		}
 	}
 	h.emit("C", op, args, i, o, k)
 	return i, o
 }
+
+// fatalClass: Go-side known-class labelling for cases that killed the worker.
+var fatalClass = map[string]func(args []string) string{}
 
 // Fail reports an in-process disagreement between implementation and oracle (bounded).
 func (h *H) Fail(op string, args []string, impl, oracle string) {
@@ -177,9 +189,10 @@ func safeExec(f opFunc, args []string) (i, o, k string) {
 // ---- supervised worker -------------------------------------------------------------------------
 
 type worker struct {
-	cmd *exec.Cmd
-	in  io.WriteCloser
-	out *bufio.Reader
+	cmd  *exec.Cmd
+	in   io.WriteCloser
+	out  *bufio.Reader
+	used int
 }
 
 func (w *worker) start() {
@@ -210,9 +223,15 @@ func (w *worker) kill() {
 }
 
 func (w *worker) run(op string, args []string) (string, string, string) {
+	// recycle: reflect.StructOf types and the codec caches of the library are never freed
+	if w.cmd != nil && w.used >= 3000 {
+		w.kill()
+	}
 	if w.cmd == nil {
 		w.start()
+		w.used = 0
 	}
+	w.used++
 	line := op
 	if len(args) > 0 {
 		line += "\t" + strings.Join(args, "\t")
